@@ -150,6 +150,9 @@ func inputHash(w WCase) string {
 
 func (e *explorer) record(c Case, res WRes) {
 	atomic.AddInt64(&e.evals, 1)
+	if os.Getenv("VERIF_VERBOSE") != "" && strings.HasPrefix(c.Label, "special=import-std") {
+		fmt.Fprintf(os.Stderr, "C13: %s target=%d -> %s %s\n", c.Label, c.W.Target, res.Class, clip(res.Sig, 120))
+	}
 	if res.Class != "hang" && !strings.HasPrefix(res.Class, "worker-death") {
 		e.memo.Store(inputHash(c.W), symptomOfResult(res))
 	}
